@@ -2,11 +2,16 @@
 import numpy as np, z3
 
 
-def _base(rng, R, C, D, ax):
+def _base(rng, R, C, D, ax, nan_upto=0):
     base = rng.randint(0, 5, size=(R, C, D)).astype(np.float32)
     nanmask = rng.rand(R, C, D) < 0.2
     if ax != 2:          # stripes along the disparity axis keep every concrete cost computable (count == D possible)
         base[nanmask] = np.nan
+    if nan_upto:         # whole leading processing blocks without any computable cost (no-data area)
+        if ax == 0:
+            base[:nan_upto, :, :] = np.nan
+        else:
+            base[:, :nan_upto, :] = np.nan
     return base
 
 
@@ -14,7 +19,7 @@ def _disps(D, subpix, dmin):
     return np.arange(D, dtype=np.float64) / subpix + dmin
 
 
-def _build(xr, S, R, C, D, measure, stripe, seed, subpix, dmin):
+def _build(xr, S, R, C, D, measure, stripe, seed, subpix, dmin, nan_upto=0):
     """stripe: None = everything symbolic; else (axis, lo, hi): only rows/cols lo..hi-1 symbolic, rest concrete pseudo-random"""
     rng = np.random.RandomState(seed)
     if stripe is None:
@@ -22,7 +27,7 @@ def _build(xr, S, R, C, D, measure, stripe, seed, subpix, dmin):
         shape_cv = (R, C, D); sym_index = None
     else:
         ax, lo, hi = stripe
-        base = _base(rng, R, C, D, ax)
+        base = _base(rng, R, C, D, ax, nan_upto)
         cv = S.SymArray(base, 'f4')
         shp = list((R, C, D)); shp[ax] = hi - lo
         sub = S.fresh_array('cv', tuple(shp), 'f4')
@@ -43,7 +48,7 @@ def _build(xr, S, R, C, D, measure, stripe, seed, subpix, dmin):
     return ds, cv, vmfull, conffull, disps, {'cv': (shape_cv, 'f4'), 'vm': (vm.shape, 'u2'), 'cf': (conf.shape, 'f4')}, sym_index, base if stripe else None
 
 
-def wta(R, C, D, measure, invalid='-9999', stripe=None, seed=0, subpix=1, dmin=-1, cap=60, block=()):
+def wta(R, C, D, measure, invalid='-9999', stripe=None, seed=0, subpix=1, dmin=-1, cap=60, block=(), nan_upto=0):
     import xarray as xr
     from vf import symnp as S, instr
     from vf.explore import EX, explore
@@ -53,7 +58,7 @@ def wta(R, C, D, measure, invalid='-9999', stripe=None, seed=0, subpix=1, dmin=-
     info = {}
 
     def h():
-        ds, cv, vm, conf, disps, shapes, sym_index, base = _build(xr, S, R, C, D, measure, stripe, seed, subpix, dmin)
+        ds, cv, vm, conf, disps, shapes, sym_index, base = _build(xr, S, R, C, D, measure, stripe, seed, subpix, dmin, nan_upto)
         col.shapes = dict(shapes)
         cv0 = cv.copy(); vm0 = vm.copy(); cf0 = conf.copy()
         for e in cv._a.flat:
@@ -125,7 +130,7 @@ def wta(R, C, D, measure, invalid='-9999', stripe=None, seed=0, subpix=1, dmin=-
                                         for r in range(R) for c in range(C) if isinstance(cv0._a[r, c, 0], S.Sym)]))] if D >= 2 else []
         col.check_path(props, label='p%d' % len(EX.trace), witnesses=wit,
                        extra={'R': R, 'C': C, 'D': D, 'measure': measure, 'invalid': invalid, 'stripe': stripe, 'seed': seed,
-                              'subpix': subpix, 'dmin': dmin})
+                              'subpix': subpix, 'dmin': dmin, 'nan_upto': nan_upto})
         info['fn'] = instr.fn_hash(DD.WinnerTakesAll.to_disp, DD.WinnerTakesAll.argmin_split, DD.WinnerTakesAll.argmax_split,
                                    DD.extract_disparity_interval_from_cost_volume)
     res, stats = explore(h, max_paths=64)
@@ -159,7 +164,7 @@ def replay(cex):
         cv = np.array(inp['cv'], dtype=np.float32).reshape(R, C, D)
     else:
         ax, lo, hi = x['stripe']
-        cv = _base(rng, R, C, D, ax)
+        cv = _base(rng, R, C, D, ax, x.get('nan_upto', 0))
         sl = [slice(None)] * 3; sl[ax] = slice(lo, hi)
         cv[tuple(sl)] = np.array(inp['cv'], dtype=np.float32)
     vm = rng.randint(0, 4096, size=(R, C)).astype(np.uint16)
